@@ -37,10 +37,14 @@ char* F___cxa_allocate_exception(uint64_t n) {
   __CPROVER_assert(excn < EXC_SLOTS, "BOUND: more than 4 exceptions allocated in one run"); __CPROVER_assume(excn < EXC_SLOTS);
   char* p = excslot[excn].bytes; excn++; return p; }
 void F___cxa_free_exception(char* p) { }
-static char* exc_type_of(char* obj) { for (int k = 0; k < EXC_SLOTS; k++) if (obj == excslot[k].bytes) return exc_ti[k]; return 0; }
+/* harness-owned exception objects (typed statics with preset fields: no stores through a symbolic slot pointer), see __VERIF_throw_static */
+static char* static_exc_obj[4]; static char* static_exc_ti[4]; static int static_excn;
+static char* exc_type_of(char* obj) { for (int k = 0; k < EXC_SLOTS; k++) if (obj == excslot[k].bytes) return exc_ti[k]; for (int k = 0; k < 4; k++) if (k < static_excn && obj == static_exc_obj[k]) return static_exc_ti[k]; return 0; }
 static char* cur_ti;   /* type of the exception in flight (cache: avoids the slot search at every landing pad) */
 void F___cxa_throw(char* obj, char* tinfo, char* dtor) { for (int k = 0; k < EXC_SLOTS; k++) if (obj == excslot[k].bytes) exc_ti[k] = tinfo; __exc_obj = obj; cur_ti = tinfo; __exc_pending = 1; }
 /* harness-made exception (stubs that throw): returns the object, type recorded */
+void __VERIF_throw_static(char* obj, char* tinfo) { __CPROVER_assert(static_excn < 4, "BOUND: more than 4 harness exceptions in one run"); __CPROVER_assume(static_excn < 4);
+  static_exc_obj[static_excn] = obj; static_exc_ti[static_excn] = tinfo; static_excn++; __exc_obj = obj; cur_ti = tinfo; __exc_pending = 1; }
 char* __VERIF_throw_new(char* tinfo, uint64_t size) { char* o = F___cxa_allocate_exception(size); F___cxa_throw(o, tinfo, 0); return o; }
 static char* caught[4]; static int ncaught;
 char* F___cxa_begin_catch(char* obj) { __exc_pending = 0; if (ncaught < 4) caught[ncaught] = obj; ncaught++; return obj; }
